@@ -9,6 +9,9 @@ class Contract(object):
     uses = ()                # callee contracts used instead of bodies
     bound_names = ()         # names of symbolic lengths, enumerated in bounded mode
     max_paths = 400
+    chain_post = False       # True: a post clause discharged on a path is available as a fact to the LATER clauses of
+                             # that path (lemma first, corollaries after).  Sound: it is only added once proved, under
+                             # the same assumptions.  Never applies to canaries or to clauses that were not discharged.
 
     def cases(self, tier):
         yield {"name": "default"}
